@@ -132,13 +132,13 @@ def predicate_known(F, s, clustering_channels, truth, K):
     return len(set(maj)) < K
 
 
-def run_once(F, s, bd, mef_values, chans, cl_ch, stat, seed):
+def run_once(F, s, bd, mef_values, chans, cl_ch, stat, seed, **kw):
     np.random.seed(seed)
-    kw = {}
+    kw = dict(full_output=True, **kw) if 'full_output' not in kw else dict(kw)
     if bd.get('sel_scale'):
         kw['selection_params'] = {'scale': bd['sel_scale']}       # the documented selection on another axis scale
     return core.attempt(F.mef.get_transform_fxn, s, mef_values, chans, clustering_channels=cl_ch,
-                        statistic_fxn=stat, full_output=True, **kw)
+                        statistic_fxn=stat, **kw)
 
 
 def run(ctx):
@@ -316,6 +316,20 @@ def run(ctx):
             same = (not o2.raised) and np.array_equal(np.asarray(o2.value.clustering['labels']), labels) and \
                 all(np.array_equal(a, b) for a, b in zip(o2.value.fitting['beads_params'], out.fitting['beads_params']))
             ctx.check(same, 'not-reproducible-for-fixed-seed' + tag, cid, **desc)
+            # the short return form (full_output=False), with progress messages on (verbose=True): the same transformation
+            import contextlib
+            import io
+            with np.errstate(all='ignore'), contextlib.redirect_stdout(io.StringIO()):
+                o4 = run_once(F, s, bd, mv_arg, chans_arg, cl_ch, stat, seed, full_output=False, verbose=bool(cid[1] % 2))
+            ctx.counters['chk:metamorphic'] += 1
+            if ctx.check(not o4.raised and callable(o4.value), 'short-form-not-a-transformation' + tag, cid,
+                         exc=core.exc_str(o4.exc) if o4.raised else None, **desc):
+                tt = s[:40].astype(np.float64)
+                with np.errstate(all='ignore'):
+                    ya = core.attempt(out.transform_fxn, tt, names)
+                    yb = core.attempt(o4.value, tt, names)
+                ctx.check((not ya.raised) and (not yb.raised) and np.asarray(ya.value).tobytes() == np.asarray(yb.value).tobytes(),
+                          'short-form-differs-from-full-output' + tag, cid, **desc)
             perm = rng.permutation(len(truth))
             sp = s[perm]
             with np.errstate(all='ignore'):
